@@ -31,7 +31,7 @@ NONCHAIN = ("block_with_3+_articulation_points", "articulation_point_in_3+_block
 
 
 def plan(tier):
-    return {"cases": 800 if tier == "quick" else 20000, "shards": 16,
+    return {"cases": 800 if tier == "quick" else 100000, "shards": 16,
             "shard_budget_s": 400 if tier == "quick" else 3300}
 
 
